@@ -487,6 +487,22 @@ func runSequence(r *mon.Run, idx int, st *seqStats) {
 				return
 			}
 			classes["read-table"] = true
+			// Domain audit: allocation sizes 0 and negative. The statement does not say
+			// whether a zero-byte allocation succeeds; what it does say is that the table
+			// stays a list of disjoint regions, so whatever the answer the table must be
+			// unchanged (outcome counted, table judged).
+			for _, n := range []int{0, -1, math.MinInt64} {
+				off, ok := vgirpc.VerifShmAllocate(seg, n)
+				ops = append(ops, opRec{Op: "alloc-degenerate", Via: via, Ok: ok, Off: off, Detail: fmt.Sprint(n)})
+				if ok {
+					classes["alloc-degenerate-accepted"] = true
+				} else {
+					classes["alloc-degenerate-refused"] = true
+				}
+				if !checkHeader("alloc-degenerate") {
+					return
+				}
+			}
 		}
 	}
 	for c := range classes {
@@ -843,9 +859,32 @@ func main() {
 	r.Require("created-by-library", "created-by-harness-layout", "second-library-handle",
 		"alloc:exact-max-gap", "alloc:max-gap-plus-1", "alloc:interior-gap", "alloc:huge", "alloc-refused-no-gap",
 		"free:valid", "free:interior", "free:end", "free:edge", "reset", "write-batch-ok", "write-batch-nofit",
-		"table-full", "alloc-refused-table-full", "table-prefilled-through-second-mapping", "data=1", "seg=64M",
+		"alloc-degenerate-refused", "create-at-or-below-header-refused", "table-full", "alloc-refused-table-full", "table-prefilled-through-second-mapping", "data=1", "seg=64M",
 		"concurrent:overlapping-operations", "concurrent:with-write-batch")
 
+	// Domain audit: segment sizes at and below the header (no data area at all).
+	for _, sz := range []int{shmref.HeaderSize, shmref.HeaderSize - 1, 24, 1, 0, -1, math.MinInt64} {
+		seg, err := vgirpc.ShmCreate(sz)
+		if err == nil {
+			name := seg.Name()
+			_ = seg.Close()
+			shmref.Unlink(name)
+			r.Violation("create:no-data-area-accepted", fmt.Sprintf("ShmCreate(%d) succeeded although the segment has no data area (documented: size must be > %d)", sz, shmref.HeaderSize), map[string]any{"size": sz})
+		} else {
+			r.Class("create-at-or-below-header-refused")
+		}
+		nm := newName()
+		if sz > 0 {
+			if hm, herr := shmref.Create(nm, shmref.HeaderSize+1); herr == nil {
+				hm.Close()
+				if s2, aerr := vgirpc.ShmAttach(nm, sz, false); aerr == nil {
+					_ = s2.Close()
+					r.Violation("attach:no-data-area-accepted", fmt.Sprintf("ShmAttach(size=%d) succeeded", sz), map[string]any{"size": sz})
+				}
+				shmref.Unlink(nm)
+			}
+		}
+	}
 	nSeq := r.N(2000, 60000)
 	nHist := r.N(600, 20000)
 	workers := 8
